@@ -1,5 +1,5 @@
 SPECIFICATION Spec
-CONSTANT M = 16
+CONSTANT M = 32
 CONSTANT L = 7
 CONSTANT Variant = "code"
 INVARIANT Inv
